@@ -116,7 +116,8 @@ Record inv0 (p : list nat) (s : st) : Prop := mkInv {
   i_leak : forall f, In f (lib_owned s) ->
       In f (taken s) \/ In f (closes s) \/ exists o, cell (objs s o) = Some f;
   i_born : forall f o, born s f o -> f < nfd s /\ (tab s f = None \/ tab s f = Some o);
-  i_ownedfresh : forall f, In f (lib_owned s) -> f < nfd s
+  i_ownedfresh : forall f, In f (lib_owned s) -> f < nfd s;
+  i_callerhist : forall f, In f (caller_fds s) <-> In (Some f) (cfds s)
 }.
 
 Lemma open_lt p s f : inv0 p s -> tab s f <> None -> f < nfd s.
@@ -148,7 +149,7 @@ Proof.
   unfold lookup_c. destruct (nth_error (cfds s) c) as [[g|]|] eqn:E; try discriminate. now intros [= ->].
 Qed.
 
-Ltac unf := unfold closes, lib_owned, lib_created, taken, refs, born, sent_msgs, recv_msgs in *.
+Ltac unf := unfold caller_fds, closes, lib_owned, lib_created, taken, refs, born, sent_msgs, recv_msgs in *.
 Ltac proj := cbn [tab nfd nofd objs nobj hnd cfds bods wire log].
 
 (** ** The primitive transitions preserve it *)
@@ -159,7 +160,7 @@ Proof.
   pose proof (fun f => open_lt p s f I) as Hlt.
   pose proof (fun f => cfd_lt p s f I) as Hclt.
   pose proof (fun f => closes_lt p s f I) as Hcllt.
-  destruct I as [Hfr Hofr Hcnt Hcell Hinj Hnd Hcf Hown Hcnd Hcl Hleak Hborn Hofresh].
+  destruct I as [Hfr Hofr Hcnt Hcell Hinj Hnd Hcf Hown Hcnd Hcl Hleak Hborn Hofresh Hch].
   destruct s as [tb nf no ob nob hn cf bo wi lg]; unf; cbn in *.
   constructor; unf; cbn.
   - intros f L. rewrite updN_neq by lia. apply Hfr. lia.
@@ -188,6 +189,7 @@ Proof.
     + destruct G as [G|G]; [discriminate|].
       destruct (Hborn f o (or_intror (or_intror G))) as [L T]. rewrite updN_neq by lia. split; [lia|auto].
   - intros f G. apply Hofresh in G. lia.
+  - intros f. rewrite in_app_iff, <- Hch. cbn. intuition congruence.
 Qed.
 
 Definition ev_born (e : event) (f o : N) : Prop :=
@@ -208,7 +210,7 @@ Lemma inv_caller_close p s c f : lookup_c s c = Some f -> inv0 p s -> inv0 p (ca
 Proof.
   intros Hc I.
   pose proof (lookup_c_in _ _ _ Hc) as Hin. pose proof (lookup_c_nth _ _ _ Hc) as Hnth.
-  destruct I as [Hfr Hofr Hcnt Hcell Hinj Hnd Hcf Hown Hcnd Hcl Hleak Hborn Hofresh].
+  destruct I as [Hfr Hofr Hcnt Hcell Hinj Hnd Hcf Hown Hcnd Hcl Hleak Hborn Hofresh Hch].
   destruct s as [tb nf no ob nob hn cf bo wi lg]; unf; cbn in *.
   pose proof (nodup_set_none_notin _ _ _ Hnd Hnth) as Hgone.
   constructor; unf; cbn.
@@ -232,6 +234,10 @@ Proof.
     destruct G as [[G|[[a G]|G]]|G]; try discriminate. destruct (Hborn g o G) as [L T]. split; auto.
     eapply born_tab_mono; eauto. unfold updN. destruct (N.eqb g f); auto.
   - exact Hofresh.
+  - intros g. split; intros G.
+    + apply in_remove in G. destruct G as [G Ne]. apply Hch in G. eapply in_set_nth_other; eauto. congruence.
+    + pose proof G as G0. apply in_set_nth in G. destruct G as [G|G]; [discriminate|].
+      apply in_in_remove; [intros ->; now apply Hgone|now apply Hch].
 Qed.
 
 Definition creation_event (ev : N -> event) (o : N) : Prop :=
@@ -245,18 +251,19 @@ Proof.
   pose proof (fun f => closes_lt p s f I) as Hcllt.
   pose proof (fun o f => cell_lt p s o f I) as Hcelt.
   pose proof (fun o => ref_lt p s o I) as Hrlt.
-  destruct I as [Hfr Hofr Hcnt Hcell Hinj Hnd Hcf Hown Hcnd Hcl Hleak Hborn Hofresh].
+  destruct I as [Hfr Hofr Hcnt Hcell Hinj Hnd Hcf Hown Hcnd Hcl Hleak Hborn Hofresh Hch].
   destruct s as [tb nf no ob nob hn cf bo wi lg]; unf; cbn in *.
   assert (Hnew : ob nob = mkObj None 0) by (apply Hofr; lia).
   assert (E1 : closes_l (ev nf :: lg) = closes_l lg) by (destruct Hev as [[src Hev]|Hev]; rewrite Hev; reflexivity).
   assert (E2 : owned_l (ev nf :: lg) = nf :: owned_l lg) by (destruct Hev as [[src Hev]|Hev]; rewrite Hev; reflexivity).
   assert (E3 : taken_l (ev nf :: lg) = taken_l lg) by (destruct Hev as [[src Hev]|Hev]; rewrite Hev; reflexivity).
+  assert (E5 : caller_l (ev nf :: lg) = caller_l lg) by (destruct Hev as [[src Hev]|Hev]; rewrite Hev; reflexivity).
   assert (E4 : forall f' o', ev_born (ev nf) f' o' -> f' = nf /\ o' = o).
   { intros f' o' G. destruct Hev as [[src Hev]|Hev]; rewrite Hev in G; destruct G as [G|[[a G]|G]]; try discriminate;
       injection G; intros; subst; auto. }
   assert (Hold : forall o' g, cell (ob o') = Some g -> o' <> nob).
   { intros o' g G ->. rewrite Hnew in G. discriminate. }
-  constructor; unf; unfold lib_new_fd; proj; rewrite ?E1, ?E2, ?E3.
+  constructor; unf; unfold lib_new_fd; proj; rewrite ?E1, ?E2, ?E3, ?E5.
   - intros f L. rewrite updN_neq by lia. apply Hfr. lia.
   - intros o' L. rewrite updn_neq by lia. apply Hofr. lia.
   - intros o'. destruct (Nat.eq_dec o' nob) as [->|Ne].
@@ -287,6 +294,7 @@ Proof.
     + apply E4 in G. destruct G as [-> ->]. rewrite updN_eq. split; [lia|auto].
     + destruct (Hborn g o' G) as [L T]. rewrite updN_neq by lia. split; [lia|auto].
   - intros g [<-|G]; [lia|]. apply Hofresh in G. lia.
+  - exact Hch.
 Qed.
 
 Lemma inv_wrap_fd p s c f : lookup_c s c = Some f -> inv0 p s -> inv0 (nobj s :: p) (wrap_fd c f s).
@@ -294,7 +302,7 @@ Proof.
   intros Hc I.
   pose proof (lookup_c_in _ _ _ Hc) as Hin. pose proof (lookup_c_nth _ _ _ Hc) as Hnth.
   pose proof (fun f => cfd_lt p s f I) as Hclt.
-  destruct I as [Hfr Hofr Hcnt Hcell Hinj Hnd Hcf Hown Hcnd Hcl Hleak Hborn Hofresh].
+  destruct I as [Hfr Hofr Hcnt Hcell Hinj Hnd Hcf Hown Hcnd Hcl Hleak Hborn Hofresh Hch].
   destruct s as [tb nf no ob nob hn cf bo wi lg]; unf; cbn in *.
   pose proof (nodup_set_none_notin _ _ _ Hnd Hnth) as Hgone.
   assert (Hnew : ob nob = mkObj None 0) by (apply Hofr; lia).
@@ -331,6 +339,10 @@ Proof.
   - intros g o' G. change (born_l (EvWrap f :: lg) g o') in G. apply born_cons in G.
     destruct G as [[G|[[a G]|G]]|G]; try discriminate. auto.
   - intros g [<-|G]; auto.
+  - intros g. split; intros G.
+    + apply in_remove in G. destruct G as [G Ne]. apply Hch in G. eapply in_set_nth_other; eauto. congruence.
+    + pose proof G as G0. apply in_set_nth in G. destruct G as [G|G]; [discriminate|].
+      apply in_in_remove; [intros ->; now apply Hgone|now apply Hch].
 Qed.
 
 (** changing only the strong count of one object *)
@@ -342,7 +354,7 @@ Lemma inv_restrong p p' s o k :
   inv0 p s -> inv0 p' (set_objs (updn (objs s) o (mkObj (cell (objs s o)) k)) s).
 Proof.
   intros Hlt Hk Hp Hpos I.
-  destruct I as [Hfr Hofr Hcnt Hcell Hinj Hnd Hcf Hown Hcnd Hcl Hleak Hborn Hofresh].
+  destruct I as [Hfr Hofr Hcnt Hcell Hinj Hnd Hcf Hown Hcnd Hcl Hleak Hborn Hofresh Hch].
   destruct s as [tb nf no ob nob hn cf bo wi lg]; unf; cbn in *.
   assert (Hc : forall x, cell (updn ob o (mkObj (cell (ob o)) k) x) = cell (ob x)).
   { intros x. destruct (Nat.eq_dec x o) as [->|Ne]; [now rewrite updn_eq|now rewrite updn_neq]. }
@@ -376,7 +388,7 @@ Proof.
   destruct (strong (objs s o)) as [|[|n]] eqn:Es; [lia| |].
   - (* the last handle *)
     destruct (cell (objs s o)) as [f|] eqn:Ec.
-    + destruct I as [Hfr Hofr Hcnt Hcell Hinj Hnd Hcf Hown Hcnd Hcl Hleak Hborn Hofresh].
+    + destruct I as [Hfr Hofr Hcnt Hcell Hinj Hnd Hcf Hown Hcnd Hcl Hleak Hborn Hofresh Hch].
       destruct s as [tb nf no ob nob hn cf bo wi lg]; unf; cbn in *.
       destruct (Hcell o f Ec) as (A & B & C & D & F).
       assert (Hne : forall o' g, o' <> o -> cell (ob o') = Some g -> g <> f).
@@ -412,6 +424,7 @@ Proof.
         destruct G as [[G|[[a G]|G]]|G]; try discriminate. destruct (Hborn g o' G) as [L T]. split; auto.
         eapply born_tab_mono; eauto. unfold updN. destruct (N.eqb g f); auto.
       * exact Hofresh.
+      * exact Hch.
     + replace (mkObj None 0) with (mkObj (cell (objs s o)) 0) by now rewrite Ec.
       apply inv_restrong with (p := o :: p); auto.
       * lia.
@@ -432,7 +445,7 @@ Lemma inv_take_cell p s o f : cell (objs s o) = Some f -> inv0 p s -> inv0 p (ta
 Proof.
   intros Ec I.
   assert (Hlt : (o < nobj s)%nat) by (eapply strong_lt; eauto; now apply (i_cell _ _ I) in Ec).
-  destruct I as [Hfr Hofr Hcnt Hcell Hinj Hnd Hcf Hown Hcnd Hcl Hleak Hborn Hofresh].
+  destruct I as [Hfr Hofr Hcnt Hcell Hinj Hnd Hcf Hown Hcnd Hcl Hleak Hborn Hofresh Hch].
   destruct s as [tb nf no ob nob hn cf bo wi lg]; unf; cbn in *.
   destruct (Hcell o f Ec) as (A & B & C & D & F).
   assert (Hne : forall o' g, o' <> o -> cell (ob o') = Some g -> g <> f).
@@ -465,6 +478,7 @@ Proof.
   - intros g o' G. change (born_l (EvTake f :: lg) g o') in G. apply born_cons in G.
     destruct G as [[G|[[a G]|G]]|G]; try discriminate. auto.
   - exact Hofresh.
+  - intros g. rewrite in_app_iff, <- Hch. cbn. intuition congruence.
 Qed.
 
 (** moving handles between owners and temporaries *)
@@ -473,7 +487,7 @@ Lemma inv_refs p p' s hn' bo' :
   inv0 p s -> inv0 p' (set_bods bo' (set_hnd hn' s)).
 Proof.
   intros Hm I.
-  destruct I as [Hfr Hofr Hcnt Hcell Hinj Hnd Hcf Hown Hcnd Hcl Hleak Hborn Hofresh].
+  destruct I as [Hfr Hofr Hcnt Hcell Hinj Hnd Hcf Hown Hcnd Hcl Hleak Hborn Hofresh Hch].
   destruct s as [tb nf no ob nob hn cf bo wi lg]; unf; cbn in *.
   constructor; unf; cbn; try assumption.
   intros o. rewrite Hm. apply Hcnt.
@@ -485,19 +499,20 @@ Definition msg_event (e : event) : Prop :=
 Lemma inv_emit_msg p s e w : msg_event e -> inv0 p s -> inv0 p (emit e (set_wire w s)).
 Proof.
   intros He I.
-  destruct I as [Hfr Hofr Hcnt Hcell Hinj Hnd Hcf Hown Hcnd Hcl Hleak Hborn Hofresh].
+  destruct I as [Hfr Hofr Hcnt Hcell Hinj Hnd Hcf Hown Hcnd Hcl Hleak Hborn Hofresh Hch].
   destruct s as [tb nf no ob nob hn cf bo wi lg]; unf; cbn in *.
   assert (E1 : closes_l (e :: lg) = closes_l lg) by (destruct e; cbn in He; try tauto; reflexivity).
   assert (E2 : owned_l (e :: lg) = owned_l lg) by (destruct e; cbn in He; try tauto; reflexivity).
   assert (E3 : taken_l (e :: lg) = taken_l lg) by (destruct e; cbn in He; try tauto; reflexivity).
-  constructor; unf; unfold emit, set_wire; proj; rewrite ?E1, ?E2, ?E3; try assumption.
+  assert (E5 : caller_l (e :: lg) = caller_l lg) by (destruct e; cbn in He; try tauto; reflexivity).
+  constructor; unf; unfold emit, set_wire; proj; rewrite ?E1, ?E2, ?E3, ?E5; try assumption.
   intros g o' G. change (born_l (e :: lg) g o') in G. apply born_cons in G.
   destruct G as [[G|[[a G]|G]]|G]; auto; subst e; cbn in He; tauto.
 Qed.
 
 Lemma inv_set_wire p s w : inv0 p s -> inv0 p (set_wire w s).
 Proof.
-  intros I. destruct I as [Hfr Hofr Hcnt Hcell Hinj Hnd Hcf Hown Hcnd Hcl Hleak Hborn Hofresh].
+  intros I. destruct I as [Hfr Hofr Hcnt Hcell Hinj Hnd Hcf Hown Hcnd Hcl Hleak Hborn Hofresh Hch].
   destruct s as [tb nf no ob nob hn cf bo wi lg]; unf; cbn in *.
   constructor; unf; cbn; assumption.
 Qed.
@@ -509,7 +524,7 @@ Qed.
 
 Lemma inv_perm p p' s : (forall o, cnt o p' = cnt o p) -> inv0 p s -> inv0 p' s.
 Proof.
-  intros Hp I. destruct I as [Hfr Hofr Hcnt Hcell Hinj Hnd Hcf Hown Hcnd Hcl Hleak Hborn Hofresh].
+  intros Hp I. destruct I as [Hfr Hofr Hcnt Hcell Hinj Hnd Hcf Hown Hcnd Hcl Hleak Hborn Hofresh Hch].
   constructor; auto. intros o. rewrite Hp. apply Hcnt.
 Qed.
 
@@ -833,4 +848,469 @@ Lemma run_wire_ok ops : wire_ok (run ops init).
 Proof.
   induction ops as [|o ops IH] using rev_ind; [reflexivity|].
   rewrite run_app. cbn. now apply step_wire_ok.
+Qed.
+
+(** ** What a push does *)
+
+Lemma frame_refl s : frame s s.
+Proof. unfold frame. repeat split; auto; lia. Qed.
+Lemma frame_trans s1 s2 s3 : frame s1 s2 -> frame s2 s3 -> frame s1 s3.
+Proof.
+  intros (A1 & B1 & C1 & D1 & E1 & F1) (A2 & B2 & C2 & D2 & E2 & F2). unfold frame.
+  repeat split; try congruence; try lia.
+  - intros o L. rewrite E2 by lia. now apply E1.
+  - intros f L. rewrite F2 by lia. now apply F1.
+Qed.
+
+Lemma lookup_b_lt s b bd : lookup_b s b = Some bd -> (b < length (bods s))%nat.
+Proof. intros H. apply lookup_b_nth in H. apply nth_error_Some. congruence. Qed.
+
+Lemma skipn_app_length {A} (a b : list A) : skipn (length a) (a ++ b) = b.
+Proof. induction a; cbn; auto. Qed.
+Lemma firstn_app_length {A} (a b : list A) : firstn (length a) (a ++ b) = a.
+Proof. induction a; cbn; congruence. Qed.
+
+Lemma marshal_fd_spec b src s s1 bd :
+  lookup_b s b = Some bd -> marshal_fd b src s = Some s1 ->
+  exists od, tab s src = Some od
+    /\ lookup_b s1 b = Some (mkBody (bfds bd ++ [nobj s]) (bidx bd ++ [len (bfds bd) mod 2 ^ 32]))
+    /\ frame s s1
+    /\ objs s1 (nobj s) = mkObj (Some (nfd s)) 1 /\ tab s1 (nfd s) = Some od
+    /\ nobj s1 = S (nobj s) /\ nfd s1 = nfd s + 1
+    /\ (forall b', b' <> b -> nth_error (bods s1) b' = nth_error (bods s) b')
+    /\ length (bods s1) = length (bods s).
+Proof.
+  intros Hb H. unfold marshal_fd in H. destruct (tab s src) as [od|] eqn:Et; [|discriminate].
+  exists od. split; auto. unfold body_push in H.
+  assert (Hb1 : lookup_b (lib_new_fd (fun f => EvDup src f od) od s) b = Some bd) by exact Hb.
+  rewrite Hb1 in H. injection H as <-.
+  pose proof (lookup_b_lt _ _ _ Hb) as L.
+  replace (len (bfds bd ++ [nobj s]) - 1) with (len (bfds bd)) by (rewrite len_app, len_cons, len_nil; lia).
+  repeat split; cbn; auto; try lia.
+  - unfold lookup_b. cbn. now rewrite nth_error_set_nth_eq.
+  - intros o Lo. rewrite updn_neq; auto. lia.
+  - intros f Lf. rewrite updN_neq; auto. lia.
+  - apply updn_eq.
+  - apply updN_eq.
+  - intros b' Ne. apply nth_error_set_nth_neq. congruence.
+  - apply length_set_nth.
+Qed.
+
+Lemma item_src_frame s0 s1 it : inv0 [] s0 -> frame s0 s1 -> item_src s1 it = item_src s0 it.
+Proof.
+  intros I (A & B & C & D & E & F). destruct it as [h|c|]; cbn; auto.
+  - unfold lookup_h. rewrite A. destruct (nth_error (hnd s0) h) as [[o|]|] eqn:En; auto.
+    rewrite E; auto. eapply ref_lt; eauto. apply (lookup_h_refs s0 h). unfold lookup_h. now rewrite En.
+  - unfold lookup_c. now rewrite B.
+Qed.
+Lemma item_src_lt s it src : inv0 [] s -> item_src s it = Some src -> src < nfd s.
+Proof.
+  intros I H. destruct it as [h|c|]; cbn in H; try discriminate.
+  - destruct (lookup_h s h); [|discriminate]. eapply cell_lt; eauto.
+  - eapply cfd_lt; eauto. eapply lookup_c_in; eauto.
+Qed.
+
+Lemma marshal_items_spec b its : forall s0 s1 s' ok bd1,
+  inv0 [] s0 -> frame s0 s1 -> lookup_b s1 b = Some bd1 -> marshal_items b its s1 = (s', ok) ->
+  exists news idxs,
+    lookup_b s' b = Some (mkBody (bfds bd1 ++ news) (bidx bd1 ++ idxs))
+    /\ frame s1 s'
+    /\ (forall b', b' <> b -> nth_error (bods s') b' = nth_error (bods s1) b')
+    /\ length (bods s') = length (bods s1)
+    /\ (forall o, In o news -> (nobj s1 <= o)%nat)
+    /\ (ok = true -> pushed s0 s' (len (bfds bd1)) its news idxs).
+Proof.
+  induction its as [|it r IH]; intros s0 s1 s' ok bd1 I0 F01 Hb H; cbn [marshal_items] in H.
+  - injection H as <- <-. exists [], []. rewrite !app_nil_r. destruct bd1; cbn.
+    repeat split; auto using frame_refl; try discriminate; try lia; cbn in *; try tauto.
+  - unfold marshal_item in H. rewrite (item_src_frame s0 s1 it I0 F01) in H.
+    destruct (item_src s0 it) as [src|] eqn:Es.
+    2:{ injection H as <- <-. exists [], []. rewrite !app_nil_r. destruct bd1; cbn.
+        repeat split; auto using frame_refl; try discriminate; try lia; cbn in *; try tauto. }
+    destruct (marshal_fd b src s1) as [s2|] eqn:Em.
+    2:{ injection H as <- <-. exists [], []. rewrite !app_nil_r. destruct bd1; cbn.
+        repeat split; auto using frame_refl; try discriminate; try lia; cbn in *; try tauto. }
+    destruct (marshal_fd_spec b src s1 s2 bd1 Hb Em) as (od & Et & Hb2 & F12 & Ho & Ht & Hno & Hnf & Hoth & Hlen).
+    pose proof (frame_trans _ _ _ F01 F12) as F02.
+    destruct (IH s0 s2 s' ok _ I0 F02 Hb2 H) as (news & idxs & Hb' & F2' & Hoth' & Hlen' & Hnews & Hpush).
+    cbn [bfds bidx] in *.
+    exists (nobj s1 :: news), ((len (bfds bd1) mod 2 ^ 32) :: idxs).
+    rewrite <- !app_assoc in Hb'. cbn [app] in Hb'.
+    split; [exact Hb'|]. split; [eapply frame_trans; eauto|].
+    split; [intros b' Ne; rewrite Hoth', Hoth; auto|].
+    split; [congruence|].
+    split; [intros o [<-|Ho']; [lia|apply Hnews in Ho'; lia]|].
+    intros ->. specialize (Hpush eq_refl). cbn [pushed].
+    destruct F2' as (A2 & B2 & C2 & D2 & E2 & G2).
+    pose proof (item_src_lt s0 it src I0 Es) as Lsrc.
+    destruct F01 as (A1 & B1 & C1 & D1 & E1 & G1).
+    assert (Ets : tab s1 src = tab s0 src) by (apply G1; auto).
+    split; [|split; [|split]].
+    + exists src, (nfd s1). repeat split; auto.
+      * rewrite E2 by lia. now rewrite Ho.
+      * lia.
+      * congruence.
+      * rewrite G2 by lia. congruence.
+      * destruct F02 as (_ & _ & _ & D02 & _ & G02). rewrite G2 by lia. now apply G02.
+    + rewrite E2 by lia. now rewrite Ho.
+    + reflexivity.
+    + replace (len (bfds bd1) + 1) with (len (bfds bd1 ++ [nobj s1])); [exact Hpush|].
+      rewrite len_app, len_cons, len_nil. lia.
+Qed.
+
+(** a successful push *)
+Lemma push_ok s b its s' idxs :
+  inv0 [] s -> step s (Push b its) = (s', RPushed idxs) ->
+  exists bd news,
+    lookup_b s b = Some bd
+    /\ lookup_b s' b = Some (mkBody (bfds bd ++ news) (bidx bd ++ idxs))
+    /\ pushed s s' (len (bfds bd)) its news idxs
+    /\ frame s s'
+    /\ (forall b', b' <> b -> nth_error (bods s') b' = nth_error (bods s) b').
+Proof.
+  intros I H. cbn [step] in H. unfold push_multi in H.
+  destruct (lookup_b s b) as [bd|] eqn:Eb; [|discriminate].
+  destruct (forallb (item_valid s) its); [|discriminate].
+  destruct (marshal_items b its s) as [s1 ok] eqn:Em.
+  destruct (marshal_items_spec b its s s s1 ok bd I (frame_refl s) Eb Em)
+    as (news & idxs0 & Hb1 & F & Hoth & Hlen & Hnews & Hpush).
+  rewrite Hb1 in H. destruct ok; [|discriminate]. injection H as <- <-.
+  cbn [bidx]. rewrite skipn_app_length. exists bd, news. auto.
+Qed.
+
+(** the index read back through the parser is the position of the duplicate *)
+Lemma pushed_read s s' its : forall pos news idxs pre,
+  pushed s s' pos its news idxs -> len pre = pos -> len (pre ++ news) <= 2 ^ 32 ->
+  forall j o idx, nth_error news j = Some o -> nth_error idxs j = Some idx ->
+    idx = pos + N.of_nat j /\ read_unixfd (pre ++ news) idx = Some o.
+Proof.
+  induction its as [|it r IH]; intros pos news idxs pre Hp Hl Hb j o idx Hn Hi.
+  - destruct news, idxs; cbn in Hp; try tauto. destruct j; discriminate.
+  - destruct news as [|o0 news], idxs as [|i0 idxs]; cbn [pushed] in Hp; try tauto.
+    destruct Hp as (_ & _ & Hi0 & Hp).
+    assert (Hlt : pos < 2 ^ 32).
+    { rewrite len_app, len_cons in Hb. lia. }
+    destruct j as [|j]; cbn in Hn, Hi.
+    + injection Hn as <-. injection Hi as <-. rewrite Hi0, N.mod_small by auto. split; [lia|].
+      unfold read_unixfd. rewrite len_app, len_cons.
+      destruct (N.leb_spec (len pre + (1 + len news)) pos); [lia|].
+      rewrite <- Hl. unfold len. rewrite Nat2N.id. rewrite nth_error_app2, Nat.sub_diag by lia. reflexivity.
+    + assert (E : pre ++ o0 :: news = (pre ++ [o0]) ++ news) by now rewrite <- app_assoc.
+      rewrite E in *. destruct (IH (pos + 1) news idxs (pre ++ [o0]) Hp) with (j := j) (o := o) (idx := idx) as [A B]; auto.
+      * rewrite len_app, len_cons, len_nil. lia.
+      * split; [lia|exact B].
+Qed.
+
+(** ** A failed push leaves nothing behind *)
+
+Lemma drop_obj_frame o s :
+  hnd (drop_obj o s) = hnd s /\ cfds (drop_obj o s) = cfds s /\ bods (drop_obj o s) = bods s
+  /\ (forall o', o' <> o -> objs (drop_obj o s) o' = objs s o')
+  /\ (forall f, tab (drop_obj o s) f = tab s f \/ (tab (drop_obj o s) f = None /\ cell (objs s o) = Some f))
+  /\ (cell (objs (drop_obj o s) o) = None \/ cell (objs (drop_obj o s) o) = cell (objs s o)).
+Proof.
+  unfold drop_obj. destruct (strong (objs s o)) as [|[|n]] eqn:Es; [| destruct (cell (objs s o)) as [f|] eqn:Ec |];
+    cbn; repeat split; auto; try (intros o' Ne; now rewrite updn_neq); try (rewrite updn_eq; cbn; auto).
+  intros g. destruct (N.eq_dec g f) as [->|Ne]; [right; now rewrite updN_eq|left; now rewrite updN_neq].
+Qed.
+
+Lemma drop_objs_frame l : forall s,
+  hnd (drop_objs l s) = hnd s /\ cfds (drop_objs l s) = cfds s /\ bods (drop_objs l s) = bods s
+  /\ (forall o', ~ In o' l -> objs (drop_objs l s) o' = objs s o')
+  /\ (forall f, tab (drop_objs l s) f = tab s f
+                \/ (tab (drop_objs l s) f = None /\ exists o, In o l /\ cell (objs s o) = Some f)).
+Proof.
+  induction l as [|o l IH]; intros s; cbn [drop_objs].
+  - repeat split; auto.
+  - destruct (IH (drop_obj o s)) as (A & B & C & D & E).
+    destruct (drop_obj_frame o s) as (A1 & B1 & C1 & D1 & E1 & F1).
+    repeat split; try congruence.
+    + intros o' Hn. rewrite D by (intros X; apply Hn; now right). apply D1. intros ->. apply Hn. now left.
+    + intros f. destruct (E f) as [X|[X (o' & Ho' & Hc)]].
+      * destruct (E1 f) as [Y|[Y Z]]; [left; congruence|]. right. split; [congruence|]. exists o. split; [now left|auto].
+      * right. split; auto. destruct (Nat.eq_dec o' o) as [->|Ne].
+        -- exists o. split; [now left|]. destruct F1 as [F1|F1]; congruence.
+        -- exists o'. split; [now right|]. rewrite <- D1; auto.
+Qed.
+
+Lemma nth_error_ext_local {A} (l : list A) : forall l', (forall n, nth_error l n = nth_error l' n) -> l = l'.
+Proof.
+  induction l as [|x l IH]; intros [|y l'] H; auto.
+  - specialize (H 0%nat). discriminate.
+  - specialize (H 0%nat). discriminate.
+  - f_equal.
+    + specialize (H 0%nat). cbn in H. congruence.
+    + apply IH. intros n. apply (H (S n)).
+Qed.
+
+Lemma set_nth_restore {A} (l' : list A) : forall (l : list A) b x,
+  (forall b', b' <> b -> nth_error l' b' = nth_error l b') -> length l' = length l ->
+  nth_error l b = Some x -> set_nth l' b x = l.
+Proof.
+  induction l' as [|y l' IH]; intros [|z l] b x Ho Hl Hn; cbn in *; try discriminate; auto.
+  destruct b as [|b]; cbn in *.
+  - injection Hn as ->. f_equal.
+    apply nth_error_ext_local. intros n. apply (Ho (S n)). discriminate.
+  - f_equal.
+    + specialize (Ho 0%nat). cbn in Ho. assert (Some y = Some z) by (apply Ho; discriminate). congruence.
+    + apply IH; auto. intros b' Ne. apply (Ho (S b')). congruence.
+Qed.
+
+Lemma refs_eq s s' : hnd s' = hnd s -> bods s' = bods s -> refs s' = refs s.
+Proof. unfold refs. now intros -> ->. Qed.
+
+(** a failed push: the body, the caller's variables and descriptors, every object and the whole
+    descriptor table are as before — every duplicate made on the way was closed again *)
+Lemma push_fail s b its s' :
+  inv0 [] s -> step s (Push b its) = (s', RErr) ->
+  bods s' = bods s /\ hnd s' = hnd s /\ cfds s' = cfds s
+  /\ (forall f, tab s' f = tab s f)
+  /\ (forall o, (o < nobj s)%nat -> objs s' o = objs s o).
+Proof.
+  intros I H.
+  pose proof (step_inv0 s (Push b its) I) as I'. rewrite H in I'. cbn [fst] in I'.
+  cbn [step] in H. unfold push_multi in H.
+  destruct (lookup_b s b) as [bd|] eqn:Eb; [|discriminate].
+  destruct (forallb (item_valid s) its); [|discriminate].
+  pose proof (inv_marshal_items b its s I) as I1.
+  destruct (marshal_items b its s) as [s1 ok] eqn:Em. cbn [fst] in I1.
+  destruct (marshal_items_spec b its s s s1 ok bd I (frame_refl s) Eb Em)
+    as (news & idxs0 & Hb1 & F & Hoth & Hlen & Hnews & _).
+  rewrite Hb1 in H. destruct ok; [discriminate|]. injection H as <-.
+  cbn [bfds bidx]. rewrite !firstn_app_length, skipn_app_length.
+  replace (mkBody (bfds bd) (bidx bd)) with bd by now destruct bd.
+  rewrite !firstn_app_length, skipn_app_length in I'.
+  replace (mkBody (bfds bd) (bidx bd)) with bd in I' by now destruct bd.
+  set (s2 := set_body b (Some bd) s1) in *.
+  destruct (drop_objs_frame news s2) as (A & B & C & D & E).
+  destruct F as (F1 & F2 & F3 & F4 & F5 & F6).
+  assert (Hbods : bods (drop_objs news s2) = bods s).
+  { rewrite C. cbn. apply set_nth_restore; auto. now apply lookup_b_nth. }
+  assert (Hhnd : hnd (drop_objs news s2) = hnd s) by (rewrite A; exact F1).
+  assert (Hcf : cfds (drop_objs news s2) = cfds s) by (rewrite B; exact F2).
+  assert (Hobj : forall o, (o < nobj s)%nat -> objs (drop_objs news s2) o = objs s o).
+  { intros o L. rewrite D; [cbn; now apply F5|]. intros X. apply Hnews in X. lia. }
+  repeat split; auto.
+  intros f. destruct (N.lt_ge_cases f (nfd s)) as [L|L].
+  - destruct (E f) as [X|[X (o & Ho & Hc)]]; [rewrite X; cbn; now apply F6|].
+    rewrite X. destruct (tab s f) as [od|] eqn:Et; auto. exfalso.
+    cbn in Hc. assert (Hof : tab s f <> None) by congruence.
+    destruct (i_owned _ _ I f Hof) as [Y|[o0 Y]].
+    + apply (i_cell _ _ I1) in Hc. destruct Hc as (_ & _ & Hc & _). apply Hc. now rewrite F2.
+    + assert (L0 : (o0 < nobj s)%nat) by (eapply strong_lt; eauto; now apply (i_cell _ _ I) in Y).
+      rewrite <- F5 in Y by auto. pose proof (i_cell_inj _ _ I1 _ _ _ Y Hc). subst o0. apply Hnews in Ho. lia.
+  - rewrite (i_tabfresh _ _ I f L).
+    destruct (tab (drop_objs news s2) f) as [od|] eqn:Et; auto. exfalso.
+    assert (Hof : tab (drop_objs news s2) f <> None) by congruence.
+    destruct (i_owned _ _ I' f Hof) as [Y|[o0 Y]].
+    + rewrite Hcf in Y. apply (cfd_lt _ _ _ I) in Y. lia.
+    + pose proof (i_cell _ _ I' _ _ Y) as (Hs & _).
+      rewrite (i_count _ _ I'), cnt_nil, Nat.add_0_r in Hs.
+      rewrite (refs_eq s _ Hhnd Hbods) in Hs. apply cnt_pos_in in Hs.
+      pose proof (ref_lt _ _ _ I Hs) as L0. rewrite Hobj in Y by auto. apply (cell_lt _ _ _ _ I) in Y. lia.
+Qed.
+
+(** ** Reading a descriptor out of a message *)
+
+Lemma unmarshal_spec s b bd idx s' r :
+  inv0 [] s -> lookup_b s b = Some bd -> step s (Unmarshal b idx) = (s', r) ->
+  (len (bfds bd) <= idx -> r = RErr /\ s' = s)
+  /\ (idx < len (bfds bd) ->
+      exists o, nth_error (bfds bd) (N.to_nat idx) = Some o /\ r = RHandle (length (hnd s))
+                /\ lookup_h s' (length (hnd s)) = Some o
+                /\ cell (objs s' o) = cell (objs s o) /\ strong (objs s' o) = S (strong (objs s o))
+                /\ tab s' = tab s /\ bods s' = bods s /\ cfds s' = cfds s).
+Proof.
+  intros I Hb H. cbn [step] in H. rewrite Hb in H. unfold unmarshal_at, read_unixfd in H. split; intros L.
+  - destruct (N.leb_spec (len (bfds bd)) idx); [|lia]. injection H as <- <-. auto.
+  - destruct (N.leb_spec (len (bfds bd)) idx); [lia|].
+    destruct (nth_error (bfds bd) (N.to_nat idx)) as [o|] eqn:En.
+    + injection H as <- <-. exists o. repeat split; auto.
+      * unfold lookup_h. cbn. rewrite nth_error_app2, Nat.sub_diag by lia. reflexivity.
+      * cbn. now rewrite updn_eq.
+      * cbn. now rewrite updn_eq.
+    + exfalso. apply nth_error_None in En. unfold len in L. lia.
+Qed.
+
+(** ** Sending and receiving *)
+
+Lemma len_filter_some_all {A} (l : list (option A)) : (forall x, In x l -> x <> None) -> len (filter_some l) = len l.
+Proof.
+  induction l as [|[x|] l IH]; intros H; cbn [filter_some]; auto.
+  - rewrite !len_cons, IH; auto. intros y Hy. apply H. now right.
+  - exfalso. apply (H None); cbn; auto.
+Qed.
+
+Lemma in_get_raw_fds s bd f : In f (get_raw_fds s bd) -> exists o, In o (bfds bd) /\ cell (objs s o) = Some f.
+Proof.
+  unfold get_raw_fds. rewrite in_filter_some, in_map_iff. intros (o & E & Ho). eauto.
+Qed.
+
+Lemma send_spec s b bd s' hdr n :
+  inv0 [] s -> lookup_b s b = Some bd -> step s (Send b) = (s', RSent hdr n) ->
+  hdr = len (bfds bd) /\ n = len (get_raw_fds s bd) /\ n <= SCM_MAX_FD
+  /\ wire s' = wire s ++ [(ofds_of s (get_raw_fds s bd), bidx bd)]
+  /\ len (ofds_of s (get_raw_fds s bd)) = n
+  /\ ((forall o, In o (bfds bd) -> cell (objs s o) <> None) -> n = hdr)
+  /\ tab s' = tab s /\ objs s' = objs s /\ hnd s' = hnd s /\ cfds s' = cfds s /\ bods s' = bods s
+  /\ closes s' = closes s.
+Proof.
+  intros I Hb H. cbn [step] in H. rewrite Hb in H.
+  destruct (N.ltb_spec SCM_MAX_FD (len (get_raw_fds s bd))); [discriminate|].
+  injection H as <- <- <-. repeat split; auto.
+  - unfold ofds_of. rewrite len_filter_some_all, len_map; auto.
+    intros x Hx. apply in_map_iff in Hx. destruct Hx as (f & <- & Hf).
+    apply in_get_raw_fds in Hf. destruct Hf as (o & _ & Hc). now apply (i_cell _ _ I) in Hc.
+  - intros Hall. unfold get_raw_fds. rewrite len_filter_some_all, len_map; auto.
+    intros x Hx. apply in_map_iff in Hx. destruct Hx as (o & <- & Ho). auto.
+Qed.
+
+Lemma recv_fds_objs ofds s :
+  map (objs (recv_fds ofds s)) (seq (nobj s) (length ofds))
+  = map (fun i => mkObj (Some (nfd s + N.of_nat i)) 1) (seq 0 (length ofds)).
+Proof.
+  revert s. induction ofds as [|o r IH]; intros s; cbn [recv_fds fold_left length seq map]; auto.
+  change (fold_left _ r ?x) with (recv_fds r x).
+  set (s1 := lib_new_fd (fun f => EvRecvFd f o) o s).
+  destruct (recv_fds_frame r s1) as (_ & _ & C & D).
+  pose proof (IH s1) as E1. cbn [s1 lib_new_fd nobj nfd] in E1.
+  f_equal.
+  - rewrite C by (cbn; lia). cbn. rewrite updn_eq. f_equal. f_equal. lia.
+  - fold s1. rewrite E1. rewrite <- seq_shift, map_map. apply map_ext. intros i. f_equal. f_equal. lia.
+Qed.
+
+Lemma map_seq_eq {A} (f g : nat -> A) n : forall a b,
+  map f (seq a n) = map g (seq b n) -> forall i, (i < n)%nat -> f (a + i)%nat = g (b + i)%nat.
+Proof.
+  induction n as [|n IH]; intros a b H i L; [lia|]. cbn in H. injection H as H0 H.
+  destruct i as [|i]; [now rewrite !Nat.add_0_r|].
+  replace (a + S i)%nat with (S a + i)%nat by lia. replace (b + S i)%nat with (S b + i)%nat by lia.
+  apply IH; auto. lia.
+Qed.
+
+Lemma recv_fds_obj_at ofds s o :
+  (nobj s <= o < nobj s + length ofds)%nat ->
+  objs (recv_fds ofds s) o = mkObj (Some (nfd s + N.of_nat (o - nobj s))) 1.
+Proof.
+  intros L. pose proof (map_seq_eq _ _ _ _ _ (recv_fds_objs ofds s) (o - nobj s)%nat) as E.
+  cbn beta in E. replace (nobj s + (o - nobj s))%nat with o in E by lia. apply E. lia.
+Qed.
+
+Lemma recv_fds_same l : forall s0,
+  hnd (recv_fds l s0) = hnd s0 /\ cfds (recv_fds l s0) = cfds s0 /\ wire (recv_fds l s0) = wire s0
+  /\ bods (recv_fds l s0) = bods s0.
+Proof.
+  induction l as [|a l IH]; intros s0; cbn [recv_fds fold_left]; auto.
+  change (fold_left _ l ?x) with (recv_fds l x).
+  destruct (IH (lib_new_fd (fun f => EvRecvFd f a) a s0)) as (A & B & C & D). rewrite A, B, C, D. auto.
+Qed.
+
+Lemma recv_spec s s' b ofds idxs w :
+  inv0 [] s -> wire s = (ofds, idxs) :: w -> step s Recv = (s', RBody b) ->
+  lookup_b s b = None
+  /\ exists bd, lookup_b s' b = Some bd /\ bidx bd = idxs /\ wire s' = w
+       /\ ofds_of s' (get_raw_fds s' bd) = ofds
+       /\ length (bfds bd) = length ofds
+       /\ NoDup (bfds bd)
+       /\ (forall o, In o (bfds bd) ->
+             live_handles s' o = 1%nat /\ (nobj s <= o)%nat
+             /\ exists f, cell (objs s' o) = Some f /\ nfd s <= f /\ tab s f = None)
+       /\ (forall o, (o < nobj s)%nat -> objs s' o = objs s o)
+       /\ (forall f, f < nfd s -> tab s' f = tab s f)
+       /\ hnd s' = hnd s /\ cfds s' = cfds s
+       /\ (forall b', (b' < length (bods s))%nat -> nth_error (bods s') b' = nth_error (bods s) b').
+Proof.
+  intros I Hw H.
+  pose proof (step_inv0 s Recv I) as I'. rewrite H in I'. cbn [fst] in I'.
+  cbn [step] in H. rewrite Hw in H. injection H as <- <-.
+  split.
+  { unfold lookup_b. replace (nth_error (bods s) (length (bods s))) with (@None (option body)); auto.
+    symmetry. apply nth_error_None. lia. }
+  set (s1 := recv_fds ofds (set_wire w s)) in *.
+  set (bd := mkBody (seq (nobj s) (length ofds)) idxs) in *.
+  destruct (recv_fds_same ofds (set_wire w s)) as (Ehnd & Ecf & Ewire & Ebods). fold s1 in Ehnd, Ecf, Ewire, Ebods.
+  cbn [set_wire hnd cfds wire bods] in Ehnd, Ecf, Ewire, Ebods.
+  destruct (recv_fds_frame ofds (set_wire w s)) as (_ & _ & Fo & Ft). fold s1 in Fo, Ft. cbn [set_wire nobj nfd objs tab] in Fo, Ft.
+  exists bd. repeat split; auto.
+  - unfold lookup_b. cbn. rewrite Ebods, nth_error_app2, Nat.sub_diag by lia. reflexivity.
+  - apply (recv_same_files ofds idxs (set_wire w s)).
+  - cbn. now rewrite seq_length.
+  - cbn. apply seq_NoDup.
+  - (* exactly one handle, the one in this message *)
+    cbn [bd bfds] in H. apply in_seq in H. destruct H as [L1 L2].
+    pose proof (recv_fds_obj_at ofds (set_wire w s) o) as Ho. fold s1 in Ho. cbn [set_wire nobj nfd] in Ho.
+    specialize (Ho ltac:(lia)).
+    unfold live_handles. pose proof (i_count _ _ I' o) as Hc.
+    match type of Hc with strong ?X = _ => change X with (objs s1 o) in Hc end.
+    rewrite Ho, cnt_nil in Hc. cbn [strong] in Hc. lia.
+  - cbn [bd bfds] in H. apply in_seq in H. lia.
+  - cbn [bd bfds] in H. apply in_seq in H. destruct H as [L1 L2].
+    pose proof (recv_fds_obj_at ofds (set_wire w s) o) as En. fold s1 in En. cbn [set_wire nobj nfd] in En.
+    specialize (En ltac:(lia)).
+    exists (nfd s + N.of_nat (o - nobj s)). cbn. rewrite En. cbn. repeat split; auto; [lia|].
+    apply (i_tabfresh _ _ I). lia.
+  - intros b' L. cbn. rewrite Ebods. now rewrite nth_error_app1.
+Qed.
+
+(** ** The clauses of C11 that hold in every state of every history *)
+
+Lemma held_iff p s f : inv0 p s -> p = [] -> (held s f <-> exists o, cell (objs s o) = Some f).
+Proof.
+  intros I ->. unfold held, live_handles. split; intros [o H]; exists o; [tauto|].
+  split; auto. pose proof (i_cell _ _ I _ _ H) as (Hs & _).
+  rewrite (i_count _ _ I), cnt_nil in Hs. lia.
+Qed.
+
+Lemma nth_error_prefix {A} (a b : list A) k x : nth_error a k = Some x -> nth_error (a ++ b) k = Some x.
+Proof. intros H. rewrite nth_error_app1; auto. apply nth_error_Some. congruence. Qed.
+
+Lemma c11_state ops :
+  let s := run ops init in
+  (* the caller's descriptors: open, the file they were opened for, never closed by the library *)
+  (forall f, In f (caller_fds s) -> tab s f <> None /\ ~ In f (closes s) /\ ~ held s f)
+  /\ (forall f o, In (EvOpen f o) (log s) -> In f (caller_fds s) -> tab s f = Some o)
+  (* never a double close, never a close of something the library does not own *)
+  /\ NoDup (closes s)
+  /\ (forall f, In f (closes s) -> In f (lib_owned s) /\ tab s f = None)
+  (* no leak *)
+  /\ (forall f, In f (lib_owned s) -> In f (taken s) \/ held s f \/ In f (closes s))
+  /\ (forall f, tab s f <> None -> In f (caller_fds s) \/ held s f)
+  /\ (forall o, strong (objs s o) = live_handles s o)
+  /\ (forall o, live_handles s o = 0%nat -> cell (objs s o) = None)
+  /\ (forall o o' f, cell (objs s o) = Some f -> cell (objs s o') = Some f -> o = o')
+  (* at the end of a history that dropped every handle *)
+  /\ (all_dropped s -> forall f, In f (lib_owned s) -> ~ In f (taken s) ->
+        count_occ N.eq_dec (closes s) f = 1%nat /\ tab s f = None)
+  (* messages arrive in order, each with the files that were attached to it *)
+  /\ (forall k l, nth_error (recv_msgs s) k = Some l -> nth_error (sent_msgs s) k = Some l)
+  /\ (length (sent_msgs s) = length (recv_msgs s) + length (wire s))%nat.
+Proof.
+  cbn zeta. pose proof (run_inv0 ops) as I. pose proof (run_wire_ok ops) as W.
+  set (s := run ops init) in *.
+  pose proof (fun f => held_iff [] s f I eq_refl) as Hh.
+  repeat split.
+  - apply (i_callerhist _ _ I) in H. now apply (i_cfds _ _ I) in H.
+  - apply (i_callerhist _ _ I) in H. now apply (i_cfds _ _ I) in H.
+  - rewrite Hh. intros [o Ho]. apply (i_callerhist _ _ I) in H. apply (i_cell _ _ I) in Ho. tauto.
+  - intros f o Ho Hc. apply (i_callerhist _ _ I) in Hc. apply (i_cfds _ _ I) in Hc.
+    destruct (i_born _ _ I f o (or_introl Ho)) as [_ [X|X]]; tauto.
+  - apply (i_closes_nodup _ _ I).
+  - now apply (i_closes _ _ I) in H.
+  - now apply (i_closes _ _ I) in H.
+  - intros f Hf. rewrite Hh. destruct (i_leak _ _ I f Hf) as [X|[X|X]]; auto.
+  - intros f Hf. rewrite Hh. destruct (i_owned _ _ I f Hf) as [X|X]; auto. left. now apply (i_callerhist _ _ I).
+  - intros o. rewrite (i_count _ _ I), cnt_nil. unfold live_handles. lia.
+  - intros o Hz. destruct (cell (objs s o)) as [f|] eqn:Ec; auto.
+    pose proof (i_cell _ _ I _ _ Ec) as (Hs & _). rewrite (i_count _ _ I), cnt_nil in Hs. unfold live_handles in Hz. lia.
+  - apply (i_cell_inj _ _ I).
+  - destruct (i_leak _ _ I f H0) as [X|[X|[o X]]]; try tauto.
+    + apply NoDup_count_occ'; auto. apply (i_closes_nodup _ _ I).
+    + exfalso. pose proof (i_cell _ _ I _ _ X) as (Hs & _). rewrite (i_count _ _ I), cnt_nil in Hs.
+      unfold all_dropped in H. rewrite H, cnt_nil in Hs. lia.
+  - destruct (i_leak _ _ I f H0) as [X|[X|[o X]]]; try tauto.
+    + now apply (i_closes _ _ I) in X.
+    + exfalso. pose proof (i_cell _ _ I _ _ X) as (Hs & _). rewrite (i_count _ _ I), cnt_nil in Hs.
+      unfold all_dropped in H. rewrite H, cnt_nil in Hs. lia.
+  - intros k l Hk. unfold wire_ok in W. rewrite W. now apply nth_error_prefix.
+  - unfold wire_ok in W. rewrite W, app_length, map_length. reflexivity.
 Qed.
